@@ -401,13 +401,20 @@ impl Runner {
             }
             "to_range" => {
                 let (st, l): (usize, usize) = (toks[1].parse().unwrap(), toks[2].parse().unwrap());
-                answer(catch(move || {
+                let shown = answer(catch(move || {
                     let r: std::ops::Range<usize> = match via {
                         "into" => IndexRange::new(st, l).into(),
                         _ => std::ops::Range::from(IndexRange::new(st, l)),
                     };
                     r
-                }), |r| format!("ok {}..{}", r.start, r.end))
+                }), |r| format!("ok {}..{}", r.start, r.end));
+                // an end beyond usize::MAX is outside what the properties speak about: whatever the
+                // code does there (panic, wrap, saturate) is recorded after `##` only
+                if st.checked_add(l).is_none() {
+                    format!("outside-scope ## {}", shown)
+                } else {
+                    shown
+                }
             }
             "from_range" => {
                 let (st, e): (usize, usize) = (toks[1].parse().unwrap(), toks[2].parse().unwrap());
